@@ -827,8 +827,8 @@ pub struct VerifRawNodeView {
     pub prev_hs: HardState,
     /// Number of the last Ready.
     pub max_number: u64,
-    /// Outstanding ReadyRecords: (number, last_entry, snapshot).
-    pub records: Vec<(u64, Option<(u64, u64)>, Option<(u64, u64)>)>,
+    /// Outstanding ReadyRecords: (number, last_entry, snapshot, hs_promise_changed).
+    pub records: Vec<(u64, Option<(u64, u64)>, Option<(u64, u64)>, bool)>,
     /// Index the next committed entries start after.
     pub commit_since_index: u64,
 }
@@ -844,7 +844,7 @@ impl<T: Storage> RawNode<T> {
             records: self
                 .records
                 .iter()
-                .map(|r| (r.number, r.last_entry, r.snapshot))
+                .map(|r| (r.number, r.last_entry, r.snapshot, r.hs_promise_changed))
                 .collect(),
             commit_since_index: self.commit_since_index,
         }
